@@ -2722,7 +2722,7 @@ class Interferometer(Decomposition):
 
             for n, expphi in enumerate(R):
                 # local phase shifts
-                q = np.log(expphi).imag if np.abs(expphi - 1) >= _decomposition_tol else 0
+                q = np.angle(expphi) if np.abs(expphi - 1) >= _decomposition_tol else 0
                 if not (drop_identity and q == 0):
                     cmds.append(Command(Rgate(np.mod(q, 2 * np.pi)), reg[n]))
 
